@@ -361,15 +361,13 @@ where
             LoadBalancingStrategy::Hash => {
                 self.hash_key(key) & self.shard_mask
             }
-            LoadBalancingStrategy::RoundRobin => {
-                let counter = self.stats.global_counter.fetch_add(1, Ordering::Relaxed);
-                (counter as usize) & self.shard_mask
-            }
-            LoadBalancingStrategy::ThreadAffinity => {
-                // Use thread ID for affinity
-                let thread_id = std::thread::current().id();
-                let hash = self.hash_thread_id(thread_id);
-                hash & self.shard_mask
+            // A key must map to the same shard on every call: get/remove/contains_key
+            // re-run this selection and can only find an entry in the shard put() chose.
+            // Routing by a call counter or by the calling thread's id broke that (put(k)
+            // followed by get(k) missed, and one key was stored in several shards), so
+            // these strategies route by key hash as well.
+            LoadBalancingStrategy::RoundRobin | LoadBalancingStrategy::ThreadAffinity => {
+                self.hash_key(key) & self.shard_mask
             }
         }
     }
